@@ -1232,7 +1232,7 @@ func init() {
 	register(&property{
 		Meta: propertyMeta{
 			ID:          "C03",
-			Explanation: "Structural half of race-freedom, decided for all schedules at once: (C03-EFF) every memory-writing instruction (store, map update/delete, copy, receiver-mutating library call) in every function reachable from the request-phase roots is classified by the root of its destination; a write to router-shared memory is accepted only inside cachedRoutes methods under the exclusive lock. (C03-APPEND) no append onto a shared slice in the request phase. (C03-LOCK) lock-set analysis of every cachedRoutes method: reads of list/hashMap need R or W, mutations need W, every acquisition has the matching release on every exit, cache internals are not touched outside the methods. (C03-POOL) typestate of the pooled context: Get -> Init before any use, Put only of a value obtained from Get in the same function, Put is the last use and never deferred. (PHASE) the router's request path never calls registration code or compiles patterns.",
+			Explanation: "Structural half of race-freedom, decided for all schedules at once: (C03-EFF) every memory-writing instruction (store, map update/delete, copy, receiver-mutating library call) in every function reachable from the request-phase roots is classified by the root of its destination; a write to router-shared memory is accepted only inside cachedRoutes methods under the exclusive lock. (C03-APPEND) no append onto a shared slice in the request phase. (C03-LOCK) lock-set analysis of every cachedRoutes method: reads of list/hashMap need R or W, mutations need W, every acquisition has the matching release on every exit, cache internals are not touched outside the methods. (C03-POOL) typestate of the pooled context: Get -> Init before any use, Put only of a value obtained from Get in the same function, Put is the last use and never deferred. (PHASE) the router's request path never calls registration code or compiles patterns. Pool ownership: see C02; a pooled map emptied by a range/delete loop or clear() counts as reset, on the Get side or before every Put.",
 			NotDecided: []string{
 				"anything user handlers do (dynamic calls through HandlerFunc values are the stated boundary)",
 				"internals of net/http, regexp, sync.Pool, container/list (trusted; summaries listed in the checker)",
